@@ -56,6 +56,9 @@ class Val:
     const: Optional[bool] = None         # known boolean constant (flags)
     true_user_only: bool = False         # flag can only be True after user-supplied code raised
     member_of: FrozenSet[str] = frozenset()  # containers this value was tested to be a member of
+    has_keys: FrozenSet[str] = frozenset()   # constant keys this (raw mapping) value was tested to contain
+    keys_of: Optional[str] = None            # this collection holds (a subset of) the keys of the named raw mapping
+    key_of: Optional[str] = None             # this value is a key of the named raw mapping (hence hashable, present)
 
     def is_raw(self) -> bool:
         return self.taint == RAW
@@ -69,6 +72,7 @@ class Origin:
     qual: str
     line: int
     via: Tuple[str, ...] = ()
+    node: Any = None
 
 
 EscKey = Tuple[str, str, str]  # (exception class, function qualname, construct)
@@ -103,6 +107,7 @@ def _merge_env(a: Dict[str, Val], b: Dict[str, Val]) -> Dict[str, Val]:
             sides = [x for x in (va, vb) if x.const is not False]
             nv.true_user_only = bool(sides) and all(x.true_user_only for x in sides)
         nv.member_of = va.member_of & vb.member_of
+        nv.has_keys = va.has_keys & vb.has_keys
         out[k] = nv
     return out
 
@@ -120,6 +125,7 @@ class Esc:
         self._stack: List[int] = []
         self.user_code_calls: List[str] = []
         self.pending_origins: Dict[EscKey, Origin] = {}
+        self.user_names: Set[str] = set()
 
     # ------------------------------------------------------------------ exception classes of the repo
     def _repo_exc_bases(self) -> Dict[str, List[str]]:
@@ -225,7 +231,7 @@ class _Frame:
 
     # ------------------------------------------------------------------ helpers
     def origin(self, exc: str, node: ast.AST) -> Origin:
-        return Origin(exc, norm(node)[:200], self.fctx.module, self.fctx.qual, getattr(node, "lineno", 0), self.via)
+        return Origin(exc, norm(node)[:200], self.fctx.module, self.fctx.qual, getattr(node, "lineno", 0), self.via, node)
 
     def add(self, esc: Escapes, excs, node: ast.AST) -> None:
         for e in excs:
@@ -320,6 +326,13 @@ class _Frame:
                     t[var] = replace(env[var], types=tn)
                     return t, env
             return env, env
+        if isinstance(test, ast.Compare) and len(test.ops) == 1 and isinstance(test.ops[0], (ast.In, ast.NotIn)) \
+                and isinstance(test.left, ast.Constant) and isinstance(test.comparators[0], ast.Name) \
+                and test.comparators[0].id in env and env[test.comparators[0].id].taint == RAW:
+            nm = test.comparators[0].id
+            t = dict(env)
+            t[nm] = replace(env[nm], has_keys=env[nm].has_keys | {repr(test.left.value)})
+            return (t, env) if isinstance(test.ops[0], ast.In) else (env, t)
         if isinstance(test, ast.Compare) and len(test.ops) == 1 and isinstance(test.ops[0], (ast.In, ast.NotIn)) \
                 and isinstance(test.left, ast.Name) and test.left.id in env and isinstance(test.comparators[0], ast.Name):
             t = dict(env)
@@ -647,6 +660,16 @@ class _Frame:
             self.handler_names.append(h.name)
             try:
                 env_h = dict(env_h0)
+                if set(caught) <= {"KeyError", "IndexError"}:
+                    # a KeyError/IndexError out of `x[const]` proves that x is subscriptable by that kind of key
+                    for origins in caught.values():
+                        for o in origins:
+                            nd = o.node
+                            if isinstance(nd, ast.Subscript) and isinstance(nd.value, ast.Name) \
+                                    and nd.value.id in env_b and nd.value.id in env_h:
+                                vb = env_b[nd.value.id]
+                                if vb.taint == RAW and vb.types is not None and vb.types <= {"Mapping", "IntSubscriptable"}:
+                                    env_h[nd.value.id] = vb
                 if h.name:
                     env_h[h.name] = Val(CLEAN, frozenset({"exc"}))
                 e_h, env_ho, ft_h = self.exec_block(h.body, env_h)
@@ -683,7 +706,7 @@ class _Frame:
 
     # ------------------------------------------------------------------ expressions
     def hashable(self, v: Val) -> bool:
-        if v.taint != RAW:
+        if v.taint != RAW or v.key_of is not None:
             return True
         if v.elems is not None:
             return all(self.hashable(e) for e in v.elems)
@@ -692,6 +715,10 @@ class _Frame:
         return all(t in M.HASHABLE_SCALARS for t in v.types)
 
     def elem_of(self, it: Val, node: ast.expr, env: Dict[str, Val]) -> Val:
+        if it.taint == RAW and it.keys_of is not None:
+            return Val(RAW, key_of=it.keys_of)
+        if it.taint == RAW and isinstance(node, ast.Name) and it.types is not None and it.types <= {"Mapping", "dict"}:
+            return Val(RAW, key_of=node.id)
         if it.taint == RAW:
             if it.types is not None and it.types <= {"str"}:
                 return Val(RAW, frozenset({"str"}))
@@ -865,10 +892,13 @@ class _Frame:
             if v.taint == RAW:
                 eff2 = M.method_effect(e.attr, v.types)
                 if eff2 is None:
-                    known_safe = v.types is not None and not any(t.startswith("?") for t in v.types) and False
                     self.add(esc, {"AttributeError"}, e)
                 elif "AttributeError" in eff2:
                     self.add(esc, {"AttributeError"}, e)
+                if e.attr in ("get", "items", "keys", "values") and isinstance(e.value, ast.Name) \
+                        and e.value.id in env and v.types is None and v.bound is None:
+                    # only mappings have these attributes in the data universe
+                    env[e.value.id] = replace(v, types=frozenset({"Mapping"}))
                 return Val(RAW, None, bound=e.attr)
             if v.taint == LOADED:
                 return Val(LOADED)
@@ -922,6 +952,12 @@ class _Frame:
             return Val(LOADED if LOADED in (l.taint, r.taint) else CLEAN, l.types if l.types == r.types else None)
         raw = l if l.taint == RAW else r
         other = r if raw is l else l
+        SETS = {"set", "frozenset"}
+        if isinstance(e.op, (ast.Sub, ast.BitAnd, ast.BitOr, ast.BitXor)) and raw.types is not None and raw.types <= SETS:
+            ok_other = other.taint != RAW or (other.types is not None and other.types <= SETS)
+            if ok_other:
+                keep = raw.keys_of if isinstance(e.op, (ast.Sub, ast.BitAnd)) and raw is l else None
+                return Val(RAW, raw.types, keys_of=keep)
         eff: Set[str] = set()
         if isinstance(e.op, ast.Mod) and raw is l and raw.types is not None and raw.types <= {"str", "bytes"}:
             eff |= {"TypeError", "ValueError"}
@@ -977,9 +1013,18 @@ class _Frame:
     def eval_subscript(self, e: ast.Subscript, env: Dict[str, Val], esc: Escapes) -> Val:
         cont = self.eval(e.value, env, esc)
         key = self.eval(e.slice, env, esc)
+        if cont.taint == RAW and isinstance(e.slice, ast.Constant) and repr(e.slice.value) in cont.has_keys:
+            return Val(RAW)  # dominated by `<key> in x`
+        if cont.taint == RAW and key.key_of is not None and isinstance(e.value, ast.Name) and key.key_of == e.value.id:
+            return Val(RAW)  # the key was drawn from this very mapping
         if cont.taint == RAW:
             kind = self.container_kind(cont, e.value)
-            if kind == "hash":
+            if cont.types is not None and cont.types <= {"IntSubscriptable"}:
+                # something that answered x[<int>] before: a sequence, or a mapping with int keys
+                self.add(esc, {"IndexError", "KeyError"}, e)
+                if key.taint == RAW:
+                    self.add(esc, {"TypeError"}, e)
+            elif kind == "hash":
                 self.add(esc, {"KeyError"}, e)
                 if not self.hashable(key):
                     self.add(esc, {"TypeError"}, e)
@@ -989,6 +1034,14 @@ class _Frame:
                     self.add(esc, {"TypeError"}, e)
             else:
                 self.add(esc, {"TypeError", "KeyError", "IndexError"}, e)
+                # in the data universe only mappings answer x['str'] and only sequences / int-keyed mappings
+                # answer x[<int>] without TypeError: a successful subscript refines the datum
+                if isinstance(e.value, ast.Name) and e.value.id in env and cont.types is None and cont.bound is None \
+                        and isinstance(e.slice, ast.Constant):
+                    if isinstance(e.slice.value, str):
+                        env[e.value.id] = replace(cont, types=frozenset({"Mapping"}))
+                    elif type(e.slice.value) is int:
+                        env[e.value.id] = replace(cont, types=frozenset({"IntSubscriptable"}))
             return Val(RAW)
         if key.taint == RAW:
             if key.member_of and isinstance(e.value, ast.Name) and self._validated_member(key, e.value.id):
@@ -1066,6 +1119,8 @@ class _Frame:
             eff = M.BOUND_RAW_CALL.get(callee_val.bound)
             if eff is None:
                 raise Undetermined(f"unmodelled bound method .{callee_val.bound} of raw data called in {self.fctx.qual}")
+            if callee_val.bound == "get" and all(self.hashable(v) for v in argvals[:1]):
+                eff = eff - {"TypeError"}
             self.add(esc, eff, call)
             return Val(RAW, frozenset({"Iterable"}) if callee_val.bound in ("items", "keys", "values") else None)
         if callee_val is not None and callee_val.avs is not None:
@@ -1178,7 +1233,7 @@ class _Frame:
             release_pending()
             A.callees_resolved.setdefault(fname_txt, "method of internal object")
             return Val(LOADED if (raw_args or any(v.taint == LOADED for v in allargs)) else CLEAN)
-        if isinstance(f, ast.Name) and f.id in USER_CODE_NAMES:
+        if isinstance(f, ast.Name) and (f.id in USER_CODE_NAMES or f.id in A.user_names):
             A.user_code_calls.append(f"{self.fctx.qual}: {norm(call)[:80]}")
             release_pending()
             self.add(esc, {USER}, call)
@@ -1325,7 +1380,13 @@ class _Frame:
         rt = RESULT_TYPES.get(name)
         if name in ("builtins.tuple", "builtins.list", "builtins.iter", "builtins.set", "builtins.frozenset",
                     "builtins.zip", "builtins.enumerate", "builtins.reversed", "builtins.sorted"):
-            return Val(RAW, frozenset({rt}) if rt else None)
+            keys_of = None
+            if call.args and isinstance(call.args[0], ast.Name) and first_raw.types is not None \
+                    and first_raw.types <= {"Mapping", "dict"} and name not in ("builtins.zip", "builtins.enumerate"):
+                keys_of = call.args[0].id
+            elif first_raw.keys_of is not None:
+                keys_of = first_raw.keys_of
+            return Val(RAW, frozenset({rt}) if rt else None, keys_of=keys_of)
         if name in ("builtins.len",):
             return Val(CLEAN, frozenset({"int"}))
         if rt in ("int", "float", "complex", "str", "bool", "Decimal", "Fraction", "bytes", "bytearray"):
